@@ -886,6 +886,28 @@ inline CircuitSpec decodeSpec(Tape &t) {
   return s;
 }
 
+/// Literal specs come from the small-scope enumerators, but a fuzzer may mutate them: a literal
+/// spec is only judged when it lies in the quantified domain of the circuit properties (C01):
+/// pairwise disjoint rows, movable cells of positive width whose placed height is a positive
+/// multiple of the row height, unturned orientation on polarised cells, areas below 2^31.
+inline bool specInDomain(const CircuitSpec &s) {
+  using coloquinte::CellOrientation;
+  for (size_t i = 0; i < s.rows.size(); ++i)
+    for (size_t j = i + 1; j < s.rows.size(); ++j) {
+      const auto &a = s.rows[i], &b = s.rows[j];
+      if (a.minX < b.maxX && b.minX < a.maxX && a.minY < b.maxY && b.minY < a.maxY) return false;
+    }
+  for (auto &c : s.cells) {
+    if ((long long)c.w * c.h >= (1LL << 31)) return false;
+    if (c.fixed) continue;
+    bool turn = refIsTurn((CellOrientation)c.orient);
+    if (c.polarity != 0 && turn) return false;
+    long long pw = turn ? c.h : c.w, ph = turn ? c.w : c.h;
+    if (pw < 1 || ph < s.rowHeight || ph % s.rowHeight != 0) return false;
+  }
+  return true;
+}
+
 /// Optional literal nets after a literal spec: [nnets, (deg, (cell,xo,yo)*)*].
 inline void decodeNets(Tape &t, CircuitSpec &s) {
   int n = s.cells.size();
